@@ -58,7 +58,9 @@ import (
 // WithCompression() in esgzOpts will be ignored but used the one for external TOC instead.
 func LayerConvertFunc(esgzOpts []estargz.Option, compressionLevel int) (convertFunc converter.ConvertFunc, finalize func(ctx context.Context, cs content.Store, ref string, desc *ocispec.Descriptor) (*images.Image, error)) {
 	return layerConvert(func(c estargz.Compression) converter.ConvertFunc {
-		return estargzconvert.LayerConvertFunc(append(esgzOpts, estargz.WithCompression(c))...)
+		// copy the options; layers are converted in parallel and must not share the appended slot
+		opts := append(append([]estargz.Option{}, esgzOpts...), estargz.WithCompression(c))
+		return estargzconvert.LayerConvertFunc(opts...)
 	}, compressionLevel)
 }
 
